@@ -475,6 +475,15 @@ def cached(fcn):
     return CachedFcn(fcn)
 
 
+def _defaultName(fcn):
+    """True if the name of this UserFcn is the default the constructor derived from the expression."""
+    if isinstance(fcn.expr, basestring):
+        return fcn.name == fcn.expr
+    if isinstance(fcn.expr, types.FunctionType) and fcn.expr.__name__ != "<lambda>":
+        return fcn.name == fcn.expr.__name__
+    return False
+
+
 def named(name, fcn):
     """Create a named, serializable version of fcn (histogrammar.util.UserFcn)
 
@@ -483,7 +492,7 @@ def named(name, fcn):
     Unlike the histogrammar.util.UserFcn constructor, this function avoids duplication (doubly wrapped objects) and
     commutes with histogrammar.util.cached and histogrammar.util.serializable (they can be applied in any order).
     """
-    if isinstance(fcn, UserFcn) and fcn.name is not None:
+    if isinstance(fcn, UserFcn) and fcn.name is not None and not _defaultName(fcn):
         raise ValueError(f"two names applied to the same function: {fcn.name} and {name}")
     if isinstance(fcn, CachedFcn):
         return CachedFcn(fcn.expr, name)
